@@ -354,6 +354,19 @@ class RpmVersion(Version):
     def build_value(cls, string):
         return rpm.RpmVersion.from_string(string)
 
+    @classmethod
+    def is_valid(cls, string):
+        """
+        Return True for an optional numeric epoch followed by a colon, a version
+        and an optional release: "[epoch:]version[-release]".
+        """
+        try:
+            value = cls.build_value(string)
+        except ValueError:
+            return False
+        # a colon can only come after the epoch
+        return bool(value.version) and ":" not in value.version + value.release
+
 
 class GentooVersion(Version):
     @classmethod
